@@ -108,7 +108,7 @@ Inductive label :=
 | LFetch (r : cbres) | LUnchanged | LFinish
 | LStopSkip | LStopCallS (sid : nat) | LShutdownRet (sid : nat) (r : sres)
 | LBootReject | LBootCrash | LBootCreate (sid : nat) (c : config)
-| LProbeOk | LProbeErr | LProbeCancelled | LCleanupCall (sid : nat)
+| LProbeOk | LProbeErr | LProbeCancelled | LProbeTimeout | LCleanupCall (sid : nat)
 | LBindOk (sid : nat) | LBindFail (sid : nat) | LPushErr (sid : nat) | LLasClosed (sid : nat)
 | LForeignBind (a : str) | LForeignFree (a : str)
 | LObsState (f : fsm) | LObsDial (a : str) (b : bool)
@@ -166,13 +166,14 @@ Fixpoint net_get (n : list (str * owner)) (a : str) : option owner :=
   | [] => None
   | (k, o) :: t => if str_eqb k a then Some o else net_get t a
   end.
+Definition owner_eqb (a b : owner) : bool :=
+  match a, b with Foreign, Foreign => true | Own i, Own j => Nat.eqb i j | _, _ => false end.
+(* a foreign process closes its listener on address a *)
 Fixpoint net_del (n : list (str * owner)) (a : str) : list (str * owner) :=
   match n with
   | [] => []
-  | (k, o) :: t => if str_eqb k a then net_del t a else (k, o) :: net_del t a
+  | (k, o) :: t => if str_eqb k a && owner_eqb o Foreign then net_del t a else (k, o) :: net_del t a
   end.
-Definition owner_eqb (a b : owner) : bool :=
-  match a, b with Foreign, Foreign => true | Own i, Own j => Nat.eqb i j | _, _ => false end.
 (* http.Server.Shutdown closes the listeners of that server only *)
 Fixpoint net_unbind (n : list (str * owner)) (sid : nat) : list (str * owner) :=
   match n with
@@ -495,7 +496,9 @@ Section Model.
       | KProbe sid =>
         match srv_at s sid, errs s with
         | Some sv, [] =>
-          if negb (sv_pc_eqb (s_pc sv) SvStart) && bound_any (net s) (addr (s_cfg sv)) then boot_ok s else None
+          (* T1: by the first tick the serve goroutine has tried to bind and, on failure, sent its error *)
+          if (sv_pc_eqb (s_pc sv) SvListening || sv_pc_eqb (s_pc sv) SvExited)
+             && bound_any (net s) (addr (s_cfg sv)) then boot_ok s else None
         | _, _ => None
         end
       | _ => None
@@ -508,6 +511,15 @@ Section Model.
     | LProbeCancelled =>                   (* case <-probeCtx.Done() *)
       match kpc s with
       | KProbe sid => if ctx_cancelled s then Some (with_crit s (holder s) (KBootFail sid)) else None
+      | _ => None
+      end
+    | LProbeTimeout =>                     (* 5 s of refused dials: ErrServerReadinessTimeout *)
+      match kpc s with
+      | KProbe sid =>
+        match srv_at s sid with
+        | Some sv => if bound_any (net s) (addr (s_cfg sv)) then None else Some (with_crit s (holder s) (KBootFail sid))
+        | None => None
+        end
       | _ => None
       end
     | LCleanupCall sid =>                  (* boot's stopServer(new): the once was just re-armed *)
@@ -583,7 +595,7 @@ Section Model.
   (* candidate internal labels of a state (a superset of the enabled ones) *)
   Definition taus (s : state) : list label :=
     [LRunStart; LRunLock; LRunFinishBoot; LRunWake; LRunServeErr; LRunLockStop; LUnchanged; LFinish;
-     LStopSkip; LBootReject; LProbeOk; LProbeErr; LProbeCancelled]
+     LStopSkip; LBootReject; LProbeOk; LProbeErr; LProbeCancelled; LProbeTimeout]
     ++ map LReloadBegin (rl_wait s)
     ++ flat_map (fun sid => [LBindOk sid; LPushErr sid]) (seq 0 (length (servers s))).
 
